@@ -387,6 +387,7 @@ func finish(c *Check, rc *RunCtx, rep *Report, start time.Time) int {
 		}
 		return 2
 	}
+	_ = os.Remove(filepath.Join(VerifDir, ".build", "last-"+c.ID+".json"))
 	if len(unknown) > 0 || len(knownHits) > 0 {
 		// full dump for triage (not evidence): every violation group with its first instance
 		type dumpGroup struct {
